@@ -522,6 +522,9 @@ class ndarray:
         else:
             vs = None
         if vs is None:
+            if dt.kind in "Mm" and isinstance(value, (float, SymF64)):
+                # item assignment does not convert float NaN to NaT (np.full_like / astype do)
+                raise ValueError("Could not convert object to NumPy " + ("datetime" if dt.kind == "M" else "timedelta"))
             c = unbox(value, dt)
             vs = [c] * len(pos)
         elif how == "scalar":
